@@ -191,7 +191,13 @@ def main() -> int:
     ex = [t for o, t in corpus.repo_examples() if len(t) < 1500]
     import textwrap
 
-    texts = [textwrap.dedent(t) for t in r.sample(ex, 400 if thorough else 160)] + [hostile.CONSTRUCTS[k] for k in sorted(hostile.CONSTRUCTS)][:20] + FIXED_TEXTS
+    from ..gen import programs
+    from . import c09, c20
+
+    # idiom programs (one per family) and the hand-written antagonists of C09 / C20: rules that pass nodes of the parsed source on to templates, renamers, movers
+    idiom_texts = [programs.program((env.seed(), "C05", name, k), n_idioms=1, only=name)[0] for name in programs.IDIOMS for k in range(3 if thorough else 1)]
+    texts = ([textwrap.dedent(t) for t in r.sample(ex, 400 if thorough else 160)] + [hostile.CONSTRUCTS[k] for k in sorted(hostile.CONSTRUCTS)][:20] + FIXED_TEXTS
+             + list(c09.ANTAGONISTS) + list(c20.RENAMERS) + idiom_texts)
     # the rule list comes from the working tree: ask a worker
     with pool.Pool(n=1) as p0:
         rep = p0.map("harness.checks.c05:w_rules", [None])[0]
